@@ -52,15 +52,28 @@ def cmd_import(sid, prop, wt):
     print(json.dumps(meta, indent=1))
 
 
-def cmd_run(sid, tier="quick", props=None, budget=None):
+def cmd_run(sid, tier="quick", props=None, budget=None, inplace=False):
+    """Run the checks against the seeded change.  Default: on a scratch copy of /repo's working tree
+    selected with VERIF_REPO (so that other work on /repo is not disturbed); --inplace applies the patch
+    to /repo itself (git apply ... git checkout -- .), which is how the changes were first confirmed."""
     d = os.path.join(SEEDED, sid)
     meta = json.load(open(os.path.join(d, "meta.json")))
     props = props or [meta["property"]]
-    rc, out = sh("git status --porcelain", cwd="/repo")
-    if out.strip():
-        print("refusing: /repo has uncommitted changes:\n" + out)
-        return 2
-    rc, out = sh("git apply %s" % os.path.join(d, "patch.diff"), cwd="/repo")
+    env = dict(os.environ)
+    scratch = None
+    if inplace:
+        rc, out = sh("git status --porcelain", cwd="/repo")
+        if out.strip():
+            print("refusing: /repo has uncommitted changes:\n" + out)
+            return 2
+        rc, out = sh("git apply %s" % os.path.join(d, "patch.diff"), cwd="/repo")
+    else:
+        scratch = "/dev/shm/hsv-seed-%s-%d" % (sid, os.getpid())
+        shutil.rmtree(scratch, ignore_errors=True)
+        os.makedirs(scratch)
+        shutil.copytree("/repo/src", os.path.join(scratch, "src"))
+        rc, out = sh("patch -p1 -s < %s" % os.path.join(d, "patch.diff"), cwd=scratch)
+        env["VERIF_REPO"] = scratch
     if rc != 0:
         print("patch does not apply:\n" + out)
         return 2
@@ -71,18 +84,23 @@ def cmd_run(sid, tier="quick", props=None, budget=None):
             cmd = "%s/check.py %s --tier %s --no-evidence" % (HERE, p, tier)
             if budget:
                 cmd += " --budget %s" % budget
-            rc, out = sh(cmd, cwd=HERE)
+            rc, out = sh(cmd, cwd=HERE, env=env)
             lines = [l for l in out.splitlines() if l.startswith(("VIOLATION", "HARNESS", "violation:", p + ":"))]
             print("== %s vs %s (%s): rc=%d %.0fs" % (sid, p, tier, rc, time.time() - t0))
             for l in lines[:4]:
                 print("   " + l[:700])
-            results["%s:%s" % (p, tier)] = {"rc": rc, "caught": rc == 1,
+            results["%s:%s" % (p, tier)] = {"rc": rc, "caught": rc == 1, "seconds": round(time.time() - t0),
                                             "first": [l[:400] for l in lines[:2]]}
+            for l in lines:
+                if l.startswith("VIOLATION") and "replay=" in l:
+                    rp = l.split("replay=")[1].strip()
+                    if os.path.exists(rp):
+                        os.remove(rp)
     finally:
-        sh("git checkout -- .", cwd="/repo")
-        for f in os.listdir(os.path.join(HERE, "replays")):
-            if f.endswith(".json"):
-                os.remove(os.path.join(HERE, "replays", f))
+        if inplace:
+            sh("git checkout -- .", cwd="/repo")
+        else:
+            shutil.rmtree(scratch, ignore_errors=True)
     json.dump(meta, open(os.path.join(d, "meta.json"), "w"), indent=1)
     return 0
 
@@ -94,7 +112,8 @@ if __name__ == "__main__":
         tier = "quick"
         props = None
         budget = None
-        a = sys.argv[3:]
+        inplace = "--inplace" in sys.argv
+        a = [x for x in sys.argv[3:] if x != "--inplace"]
         while a:
             if a[0] == "--tier":
                 tier = a[1]
@@ -103,4 +122,4 @@ if __name__ == "__main__":
             elif a[0] == "--budget":
                 budget = a[1]
             a = a[2:]
-        sys.exit(cmd_run(sys.argv[2], tier, props, budget))
+        sys.exit(cmd_run(sys.argv[2], tier, props, budget, inplace))
